@@ -70,6 +70,20 @@ var c22Vals = []string{
 
 const c22NQuickVals = 16
 
+// c22WideVals (round 3, byte/rune confusion in the IFS membership test): values
+// holding non-ASCII characters of 2, 3 and 4 UTF-8 bytes whose code point cut
+// to its low byte (or low 16 bits) is an IFS byte: † U+2020, Ġ U+0120 and
+// 𐀠 U+10020 -> space, ĉ U+0109 -> tab, Ċ U+010A -> newline, ĺ U+013A -> ':'.
+// None of them may split under any of c22IFS. They are crossed with every IFS
+// value and the short words over c22WideParts only (both tiers).
+var c22WideVals = []string{
+	"a†b", "aĠb", "aĉb", "aĊb", "aĺb", "a𐀠b",
+	"†a", "a†", "ĺa", "aĺ", "a†ĺ b:c",
+}
+
+// L, ${v}, "${v}", 'q r', ${e}
+var c22WideParts = []int{0, 3, 4, 1, 12}
+
 func (t c22Case) word() string {
 	var sb strings.Builder
 	for _, p := range t.Parts {
@@ -149,7 +163,7 @@ func c22(c *vc.Ctx) {
 	for _, p := range c22Parts[:c22NMainParts] {
 		partTexts = append(partTexts, p.Text)
 	}
-	c.Rule = fmt.Sprintf("IFS in {unset,\"\",\" \",\":\",\": \",\"::\",\" \\t\\n\",\"é\",\"x \"} x every word of 1..%d parts from %q x v in %q (v varied only when the word mentions it), with $@=('1 2' 3), a=('p q' r ''), e=''; plus every word of 1..2 parts from {L, ${v}, \"q r\", $(printf %%s \"$v\"), \"$(printf %%s \"$v\")\"} containing a command substitution. Globbing off. For each: field count and fields of the interpreter (fresh Runner) = bash 5.2 (no-fork eval), and for words built only from scalar parts also expand.Fields with ListEnviron(IFS,v,e). distinct = distinct (field list) outcomes", maxParts, partTexts, vals)
+	c.Rule = fmt.Sprintf("IFS in {unset,\"\",\" \",\":\",\": \",\"::\",\" \\t\\n\",\"é\",\"x \"} x every word of 1..%d parts from %q x v in %q (v varied only when the word mentions it), with $@=('1 2' 3), a=('p q' r ''), e=''; plus every word of 1..2 parts from {L, ${v}, \"q r\", $(printf %%s \"$v\"), \"$(printf %%s \"$v\")\"} containing a command substitution; plus every word of 1..2 parts from {L, ${v}, \"${v}\", 'q r', ${e}} mentioning v x v in %q (non-ASCII characters whose code point cut to 8 or 16 bits is an IFS byte). Globbing off. For each: field count and fields of the interpreter (fresh Runner) = bash 5.2 (no-fork eval), and for words built only from scalar parts also expand.Fields with ListEnviron(IFS,v,e). distinct = distinct (field list) outcomes", maxParts, partTexts, vals, c22WideVals)
 	c.Assumptions = []string{"bash 5.2.15 (LC_ALL=C.utf8) is the oracle for field splitting", "functions, printf and \"$@\" of the interpreter are trusted to render the fields"}
 	c.Reruns = 1
 
@@ -159,6 +173,19 @@ func c22(c *vc.Ctx) {
 	}
 	csParts := []int{0, 3, 2, 14, 15}
 	complete := vc.RunBatch(c, 1500, func(emit func(c22Case)) {
+		for ifs := range c22IFS {
+			// byte/rune confusion sub-enumeration
+			enum.Seqs(c22WideParts, 2, func(ps []int) {
+				t := c22Case{IFS: ifs, Parts: append([]int(nil), ps...)}
+				if !t.usesV() {
+					return
+				}
+				for _, v := range c22WideVals {
+					t.V = v
+					emit(t)
+				}
+			})
+		}
 		for ifs := range c22IFS {
 			// command substitution sub-enumeration
 			enum.Seqs(csParts, 2, func(ps []int) {
